@@ -79,6 +79,8 @@ pub struct World<T: Sc> {
     /// C06 twin worlds: rows of Phi and of every dPhi/dalpha_k are multiplied by these
     /// factors inside the model (None = the plain model)
     pub row_scale: Option<Arc<Vec<T>>>,
+    /// permutation of the problem builder's setter calls
+    pub builder_order: u8,
 }
 
 impl<T: Sc> World<T> {
@@ -104,6 +106,7 @@ impl<T: Sc> World<T> {
             parallel: sc.parallel,
             opt: sc.opt.clone(),
             row_scale: None,
+            builder_order: sc.builder_order,
         }
     }
     pub fn n(&self) -> usize {
@@ -228,7 +231,8 @@ pub fn fresh<T: Sc, F: Factory<T>>(
 ) -> Result<Fresh, String> {
     let ctl = Arc::new(Ctl::new(vec![]));
     let model = F::make(w, ctl, alpha)?;
-    let p = AnyProb::build(model, &w.y, w.w.as_ref(), w.eps, w.mrhs, par)?;
+    // the fresh reference is always built in the canonical order
+    let p = AnyProb::build(model, &w.y, w.w.as_ref(), w.eps, w.mrhs, par, 0)?;
     let s = snap(&p);
     let jac = if want_jac { Some(jac_obs(&p)) } else { None };
     Ok(Fresh { snap: s, jac })
@@ -341,6 +345,7 @@ impl<T: Sc, F: Factory<T>> Runner<T, F> {
                 world.eps,
                 world.mrhs,
                 world.parallel,
+                world.builder_order,
             )
         });
         let (subject, build, build_panic) = match built {
